@@ -49,6 +49,6 @@ Properties/C18.vos Properties/C18.vok Properties/C18.required_vos: Properties/C1
 Properties/C19.vo Properties/C19.glob Properties/C19.v.beautified Properties/C19.required_vo: Properties/C19.v Lib/Base.vo Lib/DecArith.vo Lib/F64.vo Model/Gauge.vo Proofs/GaugeProofs.vo
 Properties/C19.vio: Properties/C19.v Lib/Base.vio Lib/DecArith.vio Lib/F64.vio Model/Gauge.vio Proofs/GaugeProofs.vio
 Properties/C19.vos Properties/C19.vok Properties/C19.required_vos: Properties/C19.v Lib/Base.vos Lib/DecArith.vos Lib/F64.vos Model/Gauge.vos Proofs/GaugeProofs.vos
-Extract/Extract.vo Extract/Extract.glob Extract/Extract.v.beautified Extract/Extract.required_vo: Extract/Extract.v Lib/Base.vo Lib/DecArith.vo Model/Market.vo
-Extract/Extract.vio: Extract/Extract.v Lib/Base.vio Lib/DecArith.vio Model/Market.vio
-Extract/Extract.vos Extract/Extract.vok Extract/Extract.required_vos: Extract/Extract.v Lib/Base.vos Lib/DecArith.vos Model/Market.vos
+Extract/Extract.vo Extract/Extract.glob Extract/Extract.v.beautified Extract/Extract.required_vo: Extract/Extract.v Model/Accrual.vo Lib/Base.vo Lib/DecArith.vo Lib/F64.vo Model/Gauge.vo Model/Market.vo Model/Rates.vo
+Extract/Extract.vio: Extract/Extract.v Model/Accrual.vio Lib/Base.vio Lib/DecArith.vio Lib/F64.vio Model/Gauge.vio Model/Market.vio Model/Rates.vio
+Extract/Extract.vos Extract/Extract.vok Extract/Extract.required_vos: Extract/Extract.v Model/Accrual.vos Lib/Base.vos Lib/DecArith.vos Lib/F64.vos Model/Gauge.vos Model/Market.vos Model/Rates.vos
